@@ -187,7 +187,7 @@ class XmlMetaBuilder:
         """
         try:
             type_hints = get_type_hints(clazz, globalns=self.globalns)
-        except (NameError, AttributeError) as e:
+        except (NameError, AttributeError, SyntaxError) as e:
             # The class may have been selected by a document, e.g. xsi:type
             raise XmlContextError(
                 f"Failed to resolve the type hints of {clazz.__qualname__}: {e}"
